@@ -70,4 +70,55 @@ def CUnit.onlyAtomicAccess (u : CUnit) (objs : List String) : Bool :=
 def CUnit.fieldAtomic (u : CUnit) (struct name : String) : Bool :=
   u.fields.any fun f => f.struct == struct && f.name == name && f.atomic
 
+/-! ### The part of the skeleton the interleaving proofs rest on
+
+The invariants of `Model/*Conc.lean` are about *which* shared objects are accessed by *which* operation with *which* memory
+order, in *which* sequence, and whether an access is made unconditionally, conditionally or inside a loop.  They do not depend
+on how often a function re-reads a field that is written once before the threads exist (`buf_len`, `msg_len`, … — the
+`config` objects; `configNeverWritten` checks that on the extracted table), nor on the numbering of the `if`s a function
+happens to contain.  `core` keeps exactly the former; the tie compares `core`s, so that extracting a helper (its sites are
+inlined by tools/skeleton.py), reading a length once instead of twice or writing a wrap with `?:` instead of `if` re-proves,
+while a weakened order, a dropped / added / reordered atomic operation or payload access, or a changed conditionality does not. -/
+
+structure CoreSite where
+  kind : Kind
+  obj : String
+  ord : Ord
+  ord2 : Ord
+  conditional : Bool
+  inLoop : Bool
+  deriving DecidableEq, Repr
+
+/-- suffix / prefix tests on character lists (these reduce under `decide`) -/
+def hasSuffix (s suf : String) : Bool := s.toList.drop (s.length - suf.length) == suf.toList
+def hasPrefix (s pre : String) : Bool := s.toList.take pre.length == pre.toList
+
+def ctxConditional (ctx : List String) : Bool :=
+  ctx.any fun c => hasSuffix c ".then" || hasSuffix c ".else" || hasSuffix c ".rhs"
+def ctxInLoop (ctx : List String) : Bool := ctx.any fun c => hasPrefix c "loop#"
+
+def Site.core (s : Site) : CoreSite := ⟨s.kind, s.obj, s.ord, s.ord2, ctxConditional s.ctx, ctxInLoop s.ctx⟩
+
+def coreSites (config : List String) (sites : List Site) : List CoreSite :=
+  (sites.filter fun s => !(s.kind == .plainRead && config.contains s.obj)).map Site.core
+
+def coreFuncs (config : List String) (fs : List Func) : List (String × List CoreSite) :=
+  fs.map fun f => (f.name, coreSites config f.sites)
+
+def CUnit.core (u : CUnit) (config : List String) : List (String × List CoreSite) := coreFuncs config u.funcs
+
+/-- the `config` objects are written by nobody but the initialisation functions `inits` -/
+def CUnit.configNeverWritten (u : CUnit) (config inits : List String) : Bool :=
+  u.funcs.all fun f => inits.contains f.name ||
+    f.sites.all fun s => !config.contains s.obj || s.kind == .plainRead
+
+/-- in function `fn`: the first site satisfying `a` comes before the first satisfying `b`, which comes before the first
+    satisfying `c` (all three exist) -/
+def inOrder3 (u : CUnit) (fn : String) (a b c : Site → Bool) : Bool :=
+  match u.funcs.find? (·.name == fn) with
+  | none => false
+  | some f =>
+    let i := f.sites.findIdx a; let j := f.sites.findIdx b; let k := f.sites.findIdx c
+    decide (i < j) && decide (j < k) && decide (k < f.sites.length)
+
 end Librfn.Skeleton
